@@ -6,6 +6,8 @@
    vietorisRipsComplex / Filtration.copy freshness, follow-up mutation scripts. *)
 From Coq Require Import String ZArith Bool Arith List.
 From SV Require Import Names NamesFacts ListFacts Rep Fresh Complex Atomic RepInv Reach Homology Filtration Gen World WorldProofs Shapes CopyFaithful CopyAttrs.
+From SV Require Import VInv CopyOk.
+
 From SV Require Closed Listing VInv VIso.
 
 Theorem C09_copy_is_fresh :
@@ -75,3 +77,9 @@ Theorem C09_copy_keeps_the_vertex_set_reading :
   VInv.vinv c /\ forall s, containsSimplex c s = true -> VInv.sameset (basisOf c s) (basisOf src s).
 Proof. exact VIso.copy_vinv. Qed.
 Print Assumptions C09_copy_keeps_the_vertex_set_reading.
+
+(* copy() of a complex that meets the vertex-set reading never fails *)
+Theorem C09_copy_never_fails :
+  forall src, vinv src -> forall hp uid, exists hp' c, copy_new hp (view_of src) uid = (hp', c, Ok tt).
+Proof. exact copy_new_succeeds. Qed.
+Print Assumptions C09_copy_never_fails.
